@@ -848,6 +848,14 @@ func calleeOnPath(ci ssa.CallInstruction, st *an.PathState) *ssa.Function {
 		return nil
 	}
 	v := st.Selected(c.Value)
+	// a method value kept in a variable of a named function type (`type handler func(…)`; `h = p.FIN`) sits behind a type change
+	for i := 0; i < 4; i++ {
+		ct, ok := v.(*ssa.ChangeType)
+		if !ok {
+			break
+		}
+		v = st.Selected(ct.X)
+	}
 	if mc, ok := v.(*ssa.MakeClosure); ok {
 		if f, ok := mc.Fn.(*ssa.Function); ok {
 			if m := an.BoundMethod(f); m != nil {
